@@ -53,6 +53,16 @@ inductive Body where
   | foreign    -- a well-formed JSON-RPC result for another token
   | errObj     -- a JSON-RPC error object
   | httpReply  -- a complete HTTP 200 reply carrying a JSON-RPC result for another token
+  -- what error pages of front-end servers, proxies and broken peers really hold:
+  | empty        -- no byte at all (`Content-Length: 0`, an empty chunked body, an immediate close)
+  | huge         -- tens of KiB of text
+  | html         -- an HTML page in UTF-8 with non-ASCII characters
+  | latin1       -- an HTML page in ISO-8859-1 with accented letters: not UTF-8
+  | gzipDeclared -- gzip-compressed bytes announced by `Content-Encoding: gzip` (the client sends `Accept-Encoding: gzip`)
+  | gzipBare     -- gzip-compressed bytes without the header
+  | binary       -- arbitrary bytes (NUL, 0xFF, lone continuation bytes)
+  | cutChar      -- UTF-8 text ending in the middle of a multi-byte character
+  | utf16        -- UTF-16 text with a byte-order mark
 deriving Repr, DecidableEq
 
 /-- The two places where harmless variants of `single_request` differ (read from the source by the extractor). -/
@@ -135,6 +145,11 @@ inductive Beh where
   | statusLongLate (code : ErrCode) (reply : Option Nat)
                            -- the same, the surplus bytes arrive late; optionally followed by a complete reply (token)
   | scripted (r : Reply)   -- a reply delivered in pieces (every reply above without late bytes is one piece)
+  | statusChunked (code : ErrCode) (body : Body)
+                           -- non-200 status whose body travels in chunked transfer encoding (no Content-Length
+                           -- header), connection kept alive
+  | statusLenClose (code : ErrCode) (body : Body)
+                           -- non-200 status with a Content-Length AND `Connection: close`: the peer closes afterwards
 deriving Repr, DecidableEq
 
 /-- The status of a bodiless reply. -/
@@ -239,6 +254,13 @@ def exchange (lib : Lib) (c : Conn) (tok : Nat) (b : Beh) : Att :=
       .done (.transportError code.n)
         ((afterLength lib c).map fun c' => { c' with inbound := .junk :: (r.map Item.reply).toList })
     | .scripted r => deliver lib c tok r
+    -- no Content-Length header: `response.getheader("content-length", 0)` is falsy, nothing is read; the response is
+    -- framed (chunked) and the connection kept alive, so http.client still holds it unread — as for a bodiless status
+    | .statusChunked code _ =>
+      .done (.transportError code.n) (if lib.closeNoLen then none else some { c with pending := true })
+    -- `Connection: close`: http.client hands the socket over to the response (will_close) and forgets it; the cached
+    -- HTTPConnection reconnects on its next use — read or unread, nothing of this exchange can reach a later call
+    | .statusLenClose code _ => .done (.transportError code.n) none
 
 /-- `single_request` on the cached connection (or a new one). Returns the attempt's result and the
     behaviours the peer has not consumed. -/
@@ -276,6 +298,18 @@ def session (lib : Lib) (cache : Cache) (tok : Nat) : List (List Beh) → List O
     let (o, c) := call lib cache tok bs
     let (os, c') := session lib c (tok + 1) rest
     (o :: os, c')
+
+/-- The body of a non-200 reply replaced by plain text (see `C19_error_body_irrelevant`): the code never looks at it. -/
+def Final.eraseBody : Final → Final
+  | .status code _ len => .status code .text len
+  | f => f
+
+def Beh.eraseBody : Beh → Beh
+  | .status code len _ => .status code len .text
+  | .statusChunked code _ => .statusChunked code .text
+  | .statusLenClose code _ => .statusLenClose code .text
+  | .scripted r => .scripted { r with final := r.final.eraseBody }
+  | b => b
 
 /-- Behaviours of a peer that respects HTTP framing at least so far that it never leaves a *complete
     unsolicited reply* at the head of the unread data: everything but `okThenLate`. -/
